@@ -326,13 +326,19 @@ def gen_cases(rng, tier):
             for i, o in enumerate(all_subsets()):
                 f = FMTS[(i + _t) % 4]
                 md = Some(Con("MUser")) if f in ("Dict", "Yaml") and rng.random() < 0.2 else None
-                add("sweep", [Con("Ser", Con(f), Some(o), md, []), default_call])
+                # the second call is handed the SAME options object again (impl keeps one dict per distinct options term of
+                # a history, as a caller with a module-level OPTIONS constant would): seeded change C16-4
+                add("sweep", [Con("Ser", Con(f), Some(o), md, []), Con("Ser", Con(FMTS[(i + _t + 1) % 4]), Some(o), None, []),
+                              default_call])
             # (ii) histories
             for _h in range(10 if tier == "quick" else 30):
                 calls = []
                 for _c in range(rng.randint(1, 5)):
                     f = rng.choice(FMTS)
                     given = None if rng.random() < 0.15 else Some(rand_opts(rng))
+                    earlier = [c.args[1] for c in calls if c.args[1].name == "Some"]
+                    if earlier and rng.random() < 0.35:
+                        given = rng.choice(earlier)        # the same options object again
                     md = rng.choice([None, None, Some(Con("MUser")), Some(Con("MOrjson")), Some(Con("MMsgpack"))])
                     if rng.random() < 0.55:
                         armed = [rng.choice(addrs)] if rng.random() < 0.5 else []
@@ -427,9 +433,12 @@ def impl(t, case):
             del b2, root2
             gc.collect()
         obs = []
+        odicts = {}     # one dict object per distinct options term: equal options of a history are the same object
         for c in calls:
             f, given, mdt, x = c.args[0].name, c.args[1], c.args[2], c.args[3]
-            o, md = py_opts(given), py_md(mdt)
+            if given not in odicts:
+                odicts[given] = py_opts(given)
+            o, md = odicts[given], py_md(mdt)
             if c.name == "Ser":
                 _ARMED.clear()
                 for a in x:
